@@ -502,6 +502,13 @@ func ruleR114(c *Ctx) {
 								if exprMentions(y.Rhs[j], func(w ast.Node) bool { e, ok := w.(ast.Expr); return ok && fieldOf(in, e) == fv }) {
 									reads = y
 								}
+								// the copy is made by a helper of the package that reads the field under its own
+								// acquisition (x := obj.CloneVariables())
+								if cl, ok := unparen(y.Rhs[j]).(*ast.CallExpr); ok {
+									if cf := p.byObj[callee(in, cl)]; cf != nil && cf.Pkg == f.Pkg && cf != f.Root() && readsFieldDeep(p, cf, fv, 2) {
+										reads = y
+									}
+								}
 							}
 						}
 					case *ast.RangeStmt:
@@ -1160,4 +1167,32 @@ func ruleR122(c *Ctx) {
 	if n == 0 {
 		c.Missing("hook calls", "no call of a function-typed field of a token or node was found")
 	}
+}
+
+// readsFieldDeep: does f (or a same-package function it calls, depth-bounded) read field fv?
+func readsFieldDeep(p *Prog, f *FuncInfo, fv *types.Var, depth int) bool {
+	if f == nil || f.Body == nil {
+		return false
+	}
+	in := info(f)
+	hit := false
+	ast.Inspect(f.Body, func(n ast.Node) bool {
+		if hit {
+			return false
+		}
+		switch x := n.(type) {
+		case *ast.SelectorExpr:
+			if fieldOf(in, x) == fv {
+				hit = true
+			}
+		case *ast.CallExpr:
+			if depth > 0 {
+				if cf := p.byObj[callee(in, x)]; cf != nil && cf.Pkg == f.Pkg && cf != f && readsFieldDeep(p, cf, fv, depth-1) {
+					hit = true
+				}
+			}
+		}
+		return !hit
+	})
+	return hit
 }
